@@ -408,6 +408,7 @@ def run_uneven(case, obs, fail):
     geom, fs = case["geom"], case["fs"]
     f = build_field(geom, fs, case["sub"])
     rng = random.Random(case["sub"] ^ 0x5A5A)
+    obs["field"] = field_json(f)
     xa = strip(export(f, {}), case["erase"])
     cand = [a for a, k in enumerate(f.mesh.n) if k >= 3]
     a = rng.choice(cand)
